@@ -365,8 +365,9 @@ func runInstTraces(o *out, r *rng, thorough bool, pid string) {
 	}
 	if pid == "C07" {
 		runNetMonitors(o, r, thorough, prefix)
+		runLifecycle(o, r, thorough, prefix)
 	}
-	o.finish("From F3 Require Import GoInt QuorumGen Instance InstanceRun.")
+	o.finish("From F3 Require Import GoInt QuorumGen Instance InstanceRun MsgQueue Lifecycle.")
 }
 
 // multi-node adversarial executions of real participants (netsim), monitors with the given prefix only
